@@ -143,6 +143,19 @@ CHECKS = {
             'Trusts the per-handle model; fixed tree layout with identifier names; singletons judged by the '
             'load counter.',
             'DESIGN.md section 3 / C12'),
+    'C14': ('fault_enumeration',
+            'property-based testing (Hypothesis) of base scripts (clock readings, worlds, restarts) + exhaustive '
+            'enumeration of every single fault position (iteration x processor x action) per base script; '
+            'oracle = exact model of the clock',
+            'For every generated base script every (iteration, processor position, action) with action in '
+            '{Quit, quit_loop(world), quit_loop(), switch(), raise SwitchWorld, RuntimeError} is executed, '
+            'plus generated multi-fault scripts; dt of every processor call, frame abandonment, state after '
+            'start() returns, on_quit counts, exception identity, clock reads per iteration and dt == 0 after '
+            'every restart are compared with the model. Exhaustive in single fault positions per script, '
+            'sampled in scripts.',
+            'Readings are multiples of 1/8 (exact differences); quit_loop targets the current world; clear '
+            'flags of switch are left to C13; Loop.running after a non-Quit exception not judged.',
+            'DESIGN.md section 3 / C14'),
     'C15': ('exploration',
             'property-based testing (Hypothesis): generated world descriptions (dict and JSON file drivers) '
             'with references into a fixture module and a generated resource tree; oracle = independent '
